@@ -266,11 +266,9 @@ class Prog:
                 self.tags.add("dead-stack-reused")
             # cleanup landing pad in the frame that is now the newest?
             if self.rng.random() < 0.65:
-                rs_slot = self.call_slot()
-                must = rs_slot in self.stale          # otherwise _Unwind_Resume would hit the C11-1 defect
                 did = False
-                for _k in range(self.rng.randrange(1 if must else 0, 3)):
-                    if self.exc and (must or self.rng.random() < 0.6):
+                for _k in range(self.rng.randrange(0, 3)):
+                    if self.exc and self.rng.random() < 0.5:
                         if self.call():
                             did = True
                             self.small_activity()
@@ -283,15 +281,17 @@ class Prog:
                         self.plt()
                         self.ret()
                         self.tags.add("plt-call-in-cleanup")
+                # _Unwind_Resume is called at a slot at or above every dropped frame's slot (compiled code: the
+                # frame's call-site slot, i.e. exactly the slot of the child just unwound)
                 rs_slot = self.call_slot()
+                if self.stale and rs_slot < max(self.stale):
+                    rs_slot = self.rng.randrange(max(self.stale), self.top_slot())
                 if rs_slot in self.stale:
-                    if not self.call():
-                        rs_slot = min(self.stale) - 1
-                    else:
-                        self.ret()
-                        did = True
+                    self.tags.add("resume-at-slot-of-unwound-frame")
+                if self.stale:
+                    self.tags.add("resume-with-stale-entries")
                 self.emit("Resume", rs_slot, self.ra())
-                self.exc, self.extra = True, 0
+                self.exc, self.extra, self.stale = True, 0, []
                 self.tags.add("resume")
                 self.tags.add("resume-after-traced-dtor" if did else "resume-without-traced-call")
         self.emit("Catch", self.frames[0]["slot"] - 1)
@@ -369,9 +369,9 @@ def gen_free(rng, n):
 
 
 # dedicated scripts
-WITNESS_RESUME_ALIAS = [      # the cleanup pad of f1 calls _Unwind_Resume at the slot f2's entry still names
+WITNESS_RESUME_ALIAS = [      # regression (fixed by /repo 0bd540c): _Unwind_Resume at the slot of the frame just unwound
     ("Call", 0, 100, 11, 103), ("Call", 1, 90, 12, 99), ("Call", 2, 80, 13, 89),
-    ("Throw",), ("Unwind",), ("Resume", 80, 14)]
+    ("Throw",), ("Unwind",), ("Resume", 80, 14), ("Unwind",), ("Catch", 99), ("Ret", 100)]
 MIXED_CHAIN = [               # PLT function tail-calls a traced function that throws and catches itself
     ("Call", 0, 100, 11, 103), ("Plt", 0, 90, 12, 0), ("TCall", 1, 90, 92), ("Throw",), ("Catch", 89), ("Ret", 90)]
 WITNESS_FENTRY = [            # -mfentry style frame address: the dead callee's entry survives as a phantom parent
@@ -575,7 +575,7 @@ class E2EGen:
     """generates one deterministic C or C++ program by simulating its execution; everything the
     ground truth needs (depth of every call, order of setjmp/longjmp) is logged by the program itself"""
 
-    def __init__(self, rng, lang, allow_old_jmpbuf=False):
+    def __init__(self, rng, lang, allow_old_jmpbuf=True):
         self.rng = rng
         self.lang = lang
         self.funcs = []            # (name, body lines, is_tail)
@@ -649,9 +649,10 @@ class E2EGen:
                 if term == ("throw",):
                     self.tags.add("catch")
                     lines.append(ind + "} catch (int ev_) { D = sd_; logline(\"C\", \"catch\", ev_);")
-                    # calls made by the handler must not throw past it (that is the _Unwind_Resume defect class);
-                    # the handler itself may rethrow
-                    hb, term2 = self.gen_body(depth, active_jbs, 0, in_thread, ind + "\t")
+                    # calls made by the handler may throw past it (regression class of fix 0bd540c)
+                    hb, term2 = self.gen_body(depth, active_jbs, in_try, in_thread, ind + "\t")
+                    if term2 == ("throw",):
+                        self.tags.add("throw-past-catch-handler")
                     lines += hb
                     if not term2 and in_try > 0 and rng.random() < 0.3:
                         self.tags.add("rethrow")
@@ -688,6 +689,10 @@ class E2EGen:
                 fn, term = self.gen_func(0, [], 0, True, thread_root=True)
                 lines.append(ind + "{ pthread_t t_; pthread_create(&t_, NULL, th_main, NULL); pthread_join(t_, NULL); }")
                 self.thread_entry = fn
+            elif x < 0.93 and in_thread and depth >= 1 and self.lang == "c":
+                self.tags.add("pthread_exit-nested-%d" % min(depth, 3))
+                lines.append(ind + "pthread_exit(NULL);")
+                return lines, ("texit",)
             elif x < 0.95 and not in_thread and depth >= 2 and in_try == 0:
                 self.tags.add("exit-nested")
                 lines.append(ind + "exit(%d);" % rng.randrange(0, 40))
@@ -968,7 +973,7 @@ def judge_e2e(obs):
                 else:
                     es.append("SEntry SNormal")
             else:
-                es.append("SExit")
+                es.append("SExit %d" % dep)
         if ok and len(es) < 3000:
             stream = (es, [d for _, d in rp[main_tid]])
     return probs, stream
@@ -1062,12 +1067,10 @@ def run_e2e(ctx, objdir):
             ctx.extra["replay_streams_checked"] = len(streams)
             for i in vv:
                 c = streams[i][0]
-                if c.get("key") == "replay-older-jmpbuf":
-                    continue            # judged below as the dedicated witness
                 ctx.violation("C11 violated: the depths `uftrace replay` shows differ from the true depths of the record stream "
                               "(ok_replay_entries rejects the implementation's output)",
                               {"mode": "e2e-replay", "program": c["src"], "flags": c["flags"]}, True)
-            if mm and not [i for i in vv if streams[i][0].get("key") != "replay-older-jmpbuf"]:
+            if mm and not vv:
                 c = streams[mm[0]][0]
                 ctx.violation("replay model and `uftrace replay` disagree on %d record stream(s)" % len(mm),
                               {"mode": "e2e-replay", "correspondence": "C11.Model.rp_run vs uftrace replay",
@@ -1116,14 +1119,14 @@ def has_nonlocal(ops):
 
 def run_inproc(ctx, objdir):
     h = Harness(ctx, objdir)
-    progs = [({"corpus"}, c) for c in CORPUS]
+    progs = [({"corpus"}, c) for c in CORPUS + [WITNESS_RESUME_ALIAS]]
     for i in range(ctx.n(150, 2500)):
         tags = set()
         realistic = ctx.rng.random() < 0.6
         tags.add("slots:call-site" if realistic else "slots:free")
         ops = Prog(ctx.rng, tags, realistic).run(ctx.rng.choice([15, 30, 50, 70]))
         progs.append((tags, ops))
-    frees = [MIXED_CHAIN, WITNESS_RESUME_ALIAS, WITNESS_FENTRY]
+    frees = [MIXED_CHAIN, WITNESS_FENTRY]
     for i in range(ctx.n(200, 3000)):
         frees.append(gen_free(ctx.rng, ctx.rng.choice([8, 20, 40])))
     flags, results = h.run_many([ops for _, ops in progs] + frees)
@@ -1136,6 +1139,11 @@ def run_inproc(ctx, objdir):
     for ops, res in free:
         ctx.case(key=("free", tuple(ops)), nontrivial=has_nonlocal(ops),
                  tags=["inproc:free", "inproc:free-crash" if res["crashed"] else "inproc:free-complete"], size=len(ops))
+    # listed in-process finding: the mixed PLT/mcount tail-call chain (free[0]) still ends the process?
+    ctx.known_finding("rehook-mixed-chain",
+                      "a tail-call chain mixing a PLT entry and an mcount entry is re-hooked with the trampoline of the oldest "
+                      "entry: plthook_exit `invalid dynsym idx` ends the process", bool(free[0][1]["crashed"]),
+                      {"mode": "inproc", "case": case_json(free[0][0], free[0][1])})
     ev = evaluate_inproc(ctx, legal, free, flags)
     if ev is None:
         return None
